@@ -20,7 +20,7 @@ from orquesta.expressions import base as expr_base
 from orquesta.specs import native as native_specs
 
 from dst import lang
-from dst.kernel import canon, jeq, digest
+from dst.kernel import canon, jeq, digest, Keyed
 from dst.ledger import Ledger, task_status_of
 
 TERMINAL_WF = ("succeeded", "failed", "canceled")
@@ -639,7 +639,7 @@ class World(object):
             # succeeded: the task table defines no such transition, StackStorm does not do it
             self.bump("op_skipped")
             return False
-        if status == "canceled" and not self.cancel_req:
+        if status == "canceled" and not self.cancel_req and not self.o.get("solo_cancel"):
             # (H5) an action reports canceled only after a cancel request: not admissible here
             self.bump("op_skipped")
             return False
@@ -648,7 +648,12 @@ class World(object):
         if self.terminal_seen is not None:
             self.late_after_terminal += 1
             self.bump("fault_late")
-        if a["state"] not in ("running", "pending", "canceling"):
+        abr = self.o.get("abend_before_running")
+        if abr and a["item"] is None and a["state"] in ("requested", "scheduled", "delayed") \
+                and status in ("failed", "timeout", "abandoned", "canceled") and Keyed(abr).u("abr", aid) < 0.6:
+            # the action never got to run (it failed, expired or was canceled while queued)
+            self.bump("fault_abend_before_running")
+        elif a["state"] not in ("running", "pending", "canceling"):
             a["state"] = "running"
             ev = events.ActionExecutionEvent("running") if a["item"] is None else events.TaskItemActionExecutionEvent(a["item"], "running")
             self.call("update_task_state", tid, route, ev)
@@ -678,6 +683,12 @@ class World(object):
         self.call("update_task_state", tid, route, ev)
         self.after_call("completed")
         rec = self.record(tid, route)
+        if status == "canceled" and not self.cancel_req and self.status in ("canceling", "canceled"):
+            # an action was canceled on its own: from here on a cancellation is in progress
+            self.cancel_req = True
+            self.ledger.cancel_requested = True
+            self.canceled_by_action = True
+            self.bump("probe_cancellation_started_by_action")
         if wfb not in TERMINAL_WF and self.status in TERMINAL_WF:
             # the execution whose report completed the workflow (the engine flags its record
             # terminal even if the task itself did not complete, e.g. a with-items task that
@@ -1148,9 +1159,12 @@ class World(object):
                 kf, tags = self.kf_pending_items()
             if not kf:
                 kf, tags = self.kf_resumed_paused_items()
+            if not kf:
+                kf, tags = self.kf_action_cancel_items()
             self.report("C02", "ing_has_inflight", "workflow %s with no action in flight" % st, tags=tags, kf=kf)
             if st == "canceling":
-                self.report("C10", "canceled_when_drained", "workflow still canceling after the last action reported")
+                self.report("C10", "canceled_when_drained", "workflow still canceling after the last action reported",
+                            tags=tags, kf=kf)
             else:
                 self.report("C09", "paused_when_drained", "workflow still pausing after the last action reported")
         if self.pause_req and st in ("running", "resuming", "requested", "scheduled", "delayed") and not self.cancel_req:
@@ -1168,6 +1182,7 @@ class World(object):
     retry_cut = False
     last_done = None
     completing_exec = None
+    canceled_by_action = False
     canceled_by_request = False
     partial_items = False
     kf_items_loop = None
@@ -1264,8 +1279,24 @@ class World(object):
                     return "KF-resume-leaves-items-task-paused", ["resume_with_paused_items_task"]
         return None, []
 
+    def kf_action_cancel_items(self):
+        """Precise signature: the workflow is canceling because an action was canceled on its own
+        (no cancel request reached the tasks), nothing is in flight, and a with-items task that
+        still has items to offer sits in `running`: it is counted as active, but items are not
+        offered while canceling, so it can never complete."""
+        if self.status == "canceling" and not self.inflight and self.canceled_by_action:
+            for x in self.ledger.execs:
+                it = x.items
+                if it is not None and x.state == "running" and not it["inflight"] and it.get("n") \
+                        and len(set(it["offered"])) < it["n"]:
+                    return "KF-action-canceled-leaves-items-task-running", ["action_canceled_with_items_window"]
+        return None, []
+
     def classify_stuck(self):
         kf, tags = self.kf_rerun_after_cancel()
+        if kf:
+            return kf, tags
+        kf, tags = self.kf_action_cancel_items()
         if kf:
             return kf, tags
         kf, tags = self.kf_pending_items()
